@@ -221,6 +221,7 @@ def worker(args):
     session = [None]
     hist = []
     kwlog = [None]
+    seen = set()
 
     def new_session():
         if session[0] is not None:
@@ -272,6 +273,7 @@ def worker(args):
         s = session[0] or new_session()
         count('cases')
         hist.append([how, text.decode('latin-1')])
+        seen.add(hash((how, text)))
         signal.setitimer(signal.ITIMER_REAL, 1.5)
         try:
             if how == 'evaluate':
@@ -297,6 +299,15 @@ def worker(args):
             tb = _sys.exc_info()[2]
             site = site_of(tb)
             key = '%s@%s' % (type(e).__name__, site)
+            # context tag: the stored program image has line numbers out of ascending order (only reachable by
+            # loading a hand-made or corrupted tokenised file); the editing code assumes ascending order
+            try:
+                ln = s._impl.program.line_numbers
+                order = [n for n, _pos in sorted(ln.items(), key=lambda kv: kv[1]) if n != 65536]
+                if order != sorted(order):
+                    key += ':unsorted-program-image'
+            except BaseException:
+                pass
             count('host-exception')
             findings.append({'key': key, 'kind': kind, 'how': how, 'input': text.decode('latin-1'),
                              'history': [list(h) for h in hist[-60:]], 'session_kw': kwlog[0],
@@ -421,6 +432,7 @@ def worker(args):
             pass
         os.chdir(cwd)
         shutil.rmtree(root, ignore_errors=True)
+    stats['distinct_inputs'] = len(seen)
     return findings, stats, samples
 
 
@@ -454,8 +466,10 @@ def explore(ctx, plan, nproc=None):
             ctx.fail(f['key'], f, 'host exception escaped the session API: %s (input %r)' % (f['exception'], f['input'][:120]))
         for smp in samples[:1]:
             ctx.sample({'kind': task[1], 'case': smp})
-    # distinct count: we do not ship every input back; count cases conservatively via the per-worker totals
-    ctx.distinct.update(('case', i) for i in range(ctx.evaluations))
+    # distinct count: distinct (call kind, input text) per worker, summed over workers (inputs repeated in two
+    # workers are counted twice; the set-up statements NEW / RUN are counted once per worker)
+    nd = sum(st.get('distinct_inputs', 0) for _f, st, _s in results)
+    ctx.distinct.update(('distinct-input', i) for i in range(nd))
 
 
 def site_models(ctx):
